@@ -43,29 +43,30 @@ def decode(f):
     return None
 
 
-def walk(path, samples=((0.25, 0.0), (1.7, -3.2), (0.013, 40.0))):
+def walk(path, samples=((0.25, 0.0), (1.7, -3.2), (0.013, 40.0)), energy=None):
     from abtem.core.units import get_conversion_factor
     from abtem.core.axes import LinearAxis
 
-    ev = {"path": list(path), "chain_raised": False, "direct_raised": False, "factor_ppb": 0, "sampling_ppb": 0,
+    kw = {} if energy is None else {"energy": energy}
+    ev = {"path": list(path), "energy": energy is not None, "chain_raised": False, "direct_raised": False, "factor_ppb": 0, "sampling_ppb": 0,
           "offset_ppb": 0, "back_ppb": 0}
     chain_f = direct_f = None
     try:
         chain_f = 1.0
         for a, b in zip(path, path[1:]):
-            chain_f *= get_conversion_factor(b, a)
+            chain_f *= get_conversion_factor(b, a, **kw)
         chain_axes = []
         for s, o in samples:
             ax = LinearAxis(label="x", sampling=s, offset=o, units=path[0])
             for b in path[1:]:
-                ax = ax.convert_units(b)
+                ax = ax.convert_units(b, **kw)
             chain_axes.append(ax)
     except Exception as ex:
         ev["chain_raised"] = True
         ev["chain_exc"] = type(ex).__name__
     try:
-        direct_f = get_conversion_factor(path[-1], path[0])
-        direct_axes = [LinearAxis(label="x", sampling=s, offset=o, units=path[0]).convert_units(path[-1])
+        direct_f = get_conversion_factor(path[-1], path[0], **kw)
+        direct_axes = [LinearAxis(label="x", sampling=s, offset=o, units=path[0]).convert_units(path[-1], **kw)
                        for s, o in samples]
     except Exception as ex:
         ev["direct_raised"] = True
@@ -76,13 +77,14 @@ def walk(path, samples=((0.25, 0.0), (1.7, -3.2), (0.013, 40.0))):
         ev["offset_ppb"] = max(ppb(rel(c.offset, d.offset)) if d.offset != 0 or c.offset != 0 else 0
                                for c, d in zip(chain_axes, direct_axes))
         if path[-1] == path[0]:
-            ev["back_ppb"] = max([ppb(rel(chain_f, 1.0))] + [ppb(rel(c.sampling, s)) for c, (s, o) in zip(chain_axes, samples)])
+            ev["back_ppb"] = max([ppb(rel(chain_f, 1.0))] + [ppb(rel(c.sampling, s)) for c, (s, o) in zip(chain_axes, samples)]
+                                 + [ppb(rel(c.offset, o)) for c, (s, o) in zip(chain_axes, samples) if o != 0])
         ev["decoded_direct"] = decode(direct_f) or []
     return ev
 
 
 def tags_for(ev, clauses):
-    return {"clauses": sorted(clauses), "category_first": ev["path"][0], "has_alias": any("Angstrom" in u for u in ev["path"]),
+    return {"clauses": sorted(clauses), "category_first": ev["path"][0], "energy_forwarded": ev.get("energy", False), "has_alias": any("Angstrom" in u for u in ev["path"]),
             "path_len": len(ev["path"])}
 
 
@@ -130,6 +132,10 @@ def run(ctx: Ctx):
         ev = walk(p)
         evs.append(ev)
         ctx.case(js, nontrivial=len(set(p)) >= 2)
+        # the same path with an (irrelevant within a category) energy forwarded, as the plotting code does
+        ev_e = walk(p, energy=80e3)
+        evs.append(ev_e)
+        ctx.case(("energy", js), nontrivial=len(set(p)) >= 2)
         if not ev["chain_raised"] and not ev["direct_raised"]:
             exp = [model[p[-1]][0] - model[p[0]][0], model[p[-1]][1] - model[p[0]][1]]
             if ev["decoded_direct"] != exp:
@@ -144,7 +150,7 @@ def run(ctx: Ctx):
 
 
 def replay(ctx: Ctx, case):
-    ev = walk(case["event"]["path"])
+    ev = walk(case["event"]["path"], energy=80e3 if case["event"].get("energy") else None)
     ctx.case("replay")
     ctx.sample(ev)
     judge(ctx, [ev])
